@@ -21,7 +21,9 @@ RULE = (
     "month/year ends, 29 Feb 2024, both DST days: TrigTime.timer_trigger_next vs an independent calendar oracle, plus metamorphic relations "
     "(result > now; same result for any now' in (now, result); iterating enumerates strictly increasing instants). (B) @time_trigger "
     "functions running on the virtual clock for windows of hours to days under both subsystems: set of trigger_time values and real run "
-    "instants vs the oracle's enumeration; startup/shutdown counts. Non-trivial: a next instant exists, or >= 3 runs in the window."
+    "instants vs the oracle's enumeration; startup/shutdown counts; in 3 of 4 windows an injected clock fault: the wall clock read by pyscript is slewed "
+    "(3 ppm .. 500 ppm slow, 100/500 ppm fast) against the monotonic clock that drives the timers and each read costs 2 us, so every sleep ends early/late by the wall "
+    "clock and the early-wake-up re-check loops are exercised (never early, once per instant, not late beyond the slew). Non-trivial: a next instant exists, or >= 3 runs in the window."
 )
 ASSUMPTIONS = [
     "period() with a time-only start only when start < interval and interval divides 24h (quantifier)",
@@ -29,6 +31,7 @@ ASSUMPTIONS = [
     "cron instants inside [01:00, 03:00) local on the two DST days are not judged",
     "today/tomorrow forms are judged in (A) only; (B) windows avoid DST days except for dedicated cron/period DST cases",
     "timer_trigger_next's `startup` special case (now == startup == instant) is not used as a query",
+    "with an explicit 'startup' entry next to a `now`-anchored spec, whether the instant equal to `now` itself also fires is not judged (it is not strictly after the first evaluation time)",
 ]
 LO = dt.datetime(2023, 7, 1)
 HI = dt.datetime(2025, 7, 1)
